@@ -4,8 +4,10 @@ From LSConc Require Import Clock Mach Inv Pres Pres2 Pres3 Pres4 Pres5 Pres6 Pre
 
 Lemma pres s t a s' : Inv s -> step s t a = Ok s' -> Inv s'.
 Proof.
-  destruct a; eauto using pres_read, pres_write, pres_clone, pres_release, pres_free, pres_probe,
-    pres_spawn, pres_join, pres_fence, pres_readm, pres_lend, pres_readb, pres_joinb, pres_cloneb.
+  intros I H. destruct a;
+    [eapply pres_read|eapply pres_write|eapply pres_clone|eapply pres_release|eapply pres_free|eapply pres_probe
+    |eapply pres_spawn|eapply pres_join|eapply pres_fence|eapply pres_readm|eapply pres_lend|eapply pres_readb
+    |eapply pres_joinb|eapply pres_cloneb]; eassumption.
 Qed.
 
 Lemma T_init n u : T (init n) u = if Nat.eqb u 0 then nth 0 (ths (init n)) dth else dth.
